@@ -897,6 +897,215 @@ fn overlong_layer(rep: &mut Report, tier: Tier) {
     });
 }
 
+/// Operations of the multi-document histories layer (what a well-behaved client and a file
+/// watcher can send about one document).
+#[derive(Clone, Copy, Debug, PartialEq, Eq)]
+enum HOp {
+    OpenA,
+    OpenB,
+    Close,
+    Ins,
+    Del,
+    Full,
+    Save,
+    WChanged,
+    WDeleted,
+}
+
+const HOPS: [HOp; 9] = [HOp::OpenA, HOp::OpenB, HOp::Close, HOp::Ins, HOp::Del, HOp::Full, HOp::Save, HOp::WChanged, HOp::WDeleted];
+
+fn hop_name(o: HOp) -> &'static str {
+    match o {
+        HOp::OpenA => "open-A",
+        HOp::OpenB => "open-B",
+        HOp::Close => "close",
+        HOp::Ins => "insert",
+        HOp::Del => "delete",
+        HOp::Full => "full-text",
+        HOp::Save => "save",
+        HOp::WChanged => "watched-changed",
+        HOp::WDeleted => "watched-deleted",
+    }
+}
+
+const HDOCS: [&str; 4] = ["loose/d1.gleam", "app/src/d2.gleam", "app/src/d3.gleam", "lib/src/d4.gleam"];
+
+fn h_text(doc: usize, o: HOp) -> String {
+    match o {
+        HOp::OpenA => format!("pub fn editor_a{doc}() {{ 1 }}\n"),
+        HOp::OpenB => format!("// é😀\r\npub fn editor_b{doc}() {{ 2 }}\r\n"),
+        _ => format!("pub fn full{doc}() {{ 3 }}\n"),
+    }
+}
+
+fn h_tree(base: &std::path::Path) {
+    let w = |rel: &str, c: &str| {
+        let p = base.join(rel);
+        let _ = std::fs::create_dir_all(p.parent().unwrap());
+        let _ = std::fs::write(p, c);
+    };
+    w("loose/d1.gleam", "pub fn on_disk1() { 0 }\n");
+    w("app/gleam.toml", "name = \"app\"\nversion = \"1.0.0\"\n\n[dependencies]\nlib = { path = \"../lib\" }\n");
+    w("app/src/d2.gleam", "import d3\npub fn on_disk2() { d3.on_disk3() }\n");
+    w("app/src/d3.gleam", "pub fn on_disk3() { 0 }\n");
+    w("lib/gleam.toml", "name = \"lib\"\nversion = \"1.0.0\"\n");
+    w("lib/src/d4.gleam", "pub fn on_disk4() { 0 }\n");
+}
+
+/// Runs one history on a fresh server; returns the documents whose server text differs from the
+/// client's (None = the server does not know the document), or a panic message.
+fn h_run(base: &std::path::Path, hist: &[(usize, HOp)]) -> Result<Vec<(usize, String, Option<String>)>, String> {
+    let uri = |d: usize| format!("file://{}", base.join(HDOCS[d]).display());
+    let mut client: Vec<Option<RefDoc>> = vec![None; HDOCS.len()];
+    let mut version = vec![0i32; HDOCS.len()];
+    let mut srv = InProc::new();
+    for &(d, o) in hist {
+        let r = match o {
+            HOp::OpenA | HOp::OpenB => {
+                let t = h_text(d, o);
+                client[d] = Some(RefDoc::new(t.clone()));
+                version[d] += 1;
+                srv.notify("textDocument/didOpen", json!({"textDocument": {"uri": uri(d), "languageId": "gleam", "version": version[d], "text": t}}))
+            }
+            HOp::Close => {
+                client[d] = None;
+                srv.notify("textDocument/didClose", json!({"textDocument": {"uri": uri(d)}}))
+            }
+            HOp::Ins => {
+                let doc = client[d].as_mut().unwrap();
+                // at the start of the last line: exercises the line table of the stored copy
+                let (l, _) = doc.pos_of(doc.text.len());
+                let off = doc.offset_of(l, 0).unwrap();
+                doc.replace(off, off, "é\n");
+                version[d] += 1;
+                srv.notify("textDocument/didChange", json!({"textDocument": {"uri": uri(d), "version": version[d]}, "contentChanges": [{"range": {"start": {"line": l, "character": 0}, "end": {"line": l, "character": 0}}, "text": "é\n"}]}))
+            }
+            HOp::Del => {
+                let doc = client[d].as_mut().unwrap();
+                // the first character of the document, if there is one
+                let end = doc.text.chars().next().map_or(0, |c| c.len_utf8());
+                let (el, ec) = doc.pos_of(end);
+                doc.replace(0, end, "");
+                version[d] += 1;
+                srv.notify("textDocument/didChange", json!({"textDocument": {"uri": uri(d), "version": version[d]}, "contentChanges": [{"range": {"start": {"line": 0, "character": 0}, "end": {"line": el, "character": ec}}, "text": ""}]}))
+            }
+            HOp::Full => {
+                let t = h_text(d, o);
+                client[d] = Some(RefDoc::new(t.clone()));
+                version[d] += 1;
+                srv.notify("textDocument/didChange", json!({"textDocument": {"uri": uri(d), "version": version[d]}, "contentChanges": [{"text": t}]}))
+            }
+            HOp::Save => srv.notify("textDocument/didSave", json!({"textDocument": {"uri": uri(d)}})),
+            HOp::WChanged => srv.notify("workspace/didChangeWatchedFiles", json!({"changes": [{"uri": uri(d), "type": 2}]})),
+            HOp::WDeleted => srv.notify("workspace/didChangeWatchedFiles", json!({"changes": [{"uri": uri(d), "type": 3}]})),
+        };
+        r.map_err(|e| format!("panic in {} of {}: {}", hop_name(o), HDOCS[d], panic_class(&e)))?;
+    }
+    let mut bad = vec![];
+    for d in 0..HDOCS.len() {
+        let Some(doc) = &client[d] else { continue };
+        let want = doc.without_cr();
+        let got = srv.server_text(&uri(d)).map_err(|e| format!("panic in glas/syntaxTree: {}", panic_class(&e)))?;
+        if got.as_deref() != Some(want.as_str()) {
+            bad.push((d, want, got));
+        }
+    }
+    Ok(bad)
+}
+
+fn h_valid(open: &[bool], d: usize, o: HOp) -> bool {
+    match o {
+        HOp::OpenA | HOp::OpenB => !open[d],
+        HOp::Close | HOp::Ins | HOp::Del | HOp::Full | HOp::Save => open[d],
+        HOp::WChanged | HOp::WDeleted => true,
+    }
+}
+
+fn h_enumerate(n: usize) -> Vec<Vec<(usize, HOp)>> {
+    fn go(n: usize, open: &mut Vec<bool>, cur: &mut Vec<(usize, HOp)>, out: &mut Vec<Vec<(usize, HOp)>>) {
+        // a history is worth running when some document is open at its end
+        if open.iter().any(|&o| o) {
+            out.push(cur.clone());
+        }
+        if cur.len() == n {
+            return;
+        }
+        for d in 0..HDOCS.len() {
+            for o in HOPS {
+                if !h_valid(open, d, o) {
+                    continue;
+                }
+                let was = open[d];
+                match o {
+                    HOp::OpenA | HOp::OpenB => open[d] = true,
+                    HOp::Close => open[d] = false,
+                    _ => {}
+                }
+                cur.push((d, o));
+                go(n, open, cur, out);
+                cur.pop();
+                open[d] = was;
+            }
+        }
+    }
+    let mut out = vec![];
+    go(n, &mut vec![false; HDOCS.len()], &mut vec![], &mut out);
+    out
+}
+
+fn h_json(h: &[(usize, HOp)]) -> serde_json::Value {
+    json!(h.iter().map(|(d, o)| json!([HDOCS[*d], hop_name(*o)])).collect::<Vec<_>>())
+}
+
+/// Multi-document histories layer: every history of <= n client / watcher operations over four
+/// documents (a free-standing file, two modules of one package, a module of a path dependency of
+/// that package; all present on disk with other contents), each on a fresh server through the
+/// real router. After the history every document the client holds open must be analysed with the
+/// client's text. Starts the store from non-initial states: vacated and re-used slots, packages
+/// loaded by another document's didOpen, documents known from disk before they are opened.
+fn histories_layer(rep: &mut Report, tier: Tier) {
+    let base = crate::core::verif_root().join(".scratch/c13h");
+    let _ = std::fs::remove_dir_all(&base);
+    h_tree(&base);
+    let n = tier.pick(3, 4);
+    let hists = h_enumerate(n);
+    let res: Vec<Violation> = hists
+        .par_iter()
+        .filter_map(|h| {
+            let ops: Vec<String> = h.iter().map(|(d, o)| format!("{}:{}", HDOCS[*d], hop_name(*o))).collect();
+            match h_run(&base, h) {
+                Ok(bad) if bad.is_empty() => None,
+                Ok(bad) => {
+                    let (d, want, got) = &bad[0];
+                    // key: the kind of the last operation on the diverged document and whether other documents were involved
+                    let last = h.iter().rev().find(|(x, _)| x == d).map(|(_, o)| hop_name(*o)).unwrap_or("-");
+                    let others = h.iter().any(|(x, _)| x != d);
+                    Some(Violation { class: "history-text-diverged".into(), key: format!("{}|last op on it: {last}|{}", HDOCS[*d], if others { "other documents involved" } else { "alone" }), witness: json!({"history": h_json(h)}), detail: format!("history {ops:?}: the server analyses {got:?} for {}, the client has {want:?}", HDOCS[*d]) })
+                }
+                Err(e) => Some(Violation { class: "history-panic".into(), key: e.clone(), witness: json!({"history": h_json(h)}), detail: format!("history {ops:?}: {e}") }),
+            }
+        })
+        .collect();
+    // shortest witness per key
+    let mut vs = res;
+    vs.sort_by_key(|v| (v.witness["history"].as_array().map_or(0, |a| a.len()), v.detail.clone()));
+    let mut seen = std::collections::BTreeSet::new();
+    for v in vs {
+        if seen.insert(v.key.clone()) {
+            rep.violation(v);
+        }
+    }
+    rep.layer(Layer {
+        name: "multi-document-histories".into(),
+        states: hists.len() as u64,
+        transitions: hists.iter().map(|h| h.len() as u64).sum(),
+        executions: hists.len() as u64,
+        exhaustive: true,
+        bound: format!("every history of <= {n} operations from {{open with text A, open with text B (CRLF, multi-byte), close, insert at the last line start, delete the first character, full-text change, save, watched-file changed, watched-file deleted}} x 4 documents (free-standing file, two modules of package app, a module of app's path dependency lib; all on disk with other contents), only sequences a well-behaved client can send (open when closed, edit / close / save when open); each on a fresh real Server through the router; afterwards every open document's text is read back via glas/syntaxTree"),
+        ..Default::default()
+    });
+}
+
 pub fn run_c13(tier: Tier) -> i32 {
     let mut rep = Report::new("C13", tier);
     let max_syms = tier.pick(4usize, 5usize);
@@ -924,6 +1133,7 @@ pub fn run_c13(tier: Tier) -> i32 {
     router_layer(&mut rep, tier);
     disk_layer(&mut rep, tier);
     overlong_layer(&mut rep, tier);
+    histories_layer(&mut rep, tier);
     rep.distinct_nontrivial = crlf.load(Ordering::Relaxed).min(unique);
     rep.distinct_nontrivial = unique.saturating_sub(pow(1, 1));
     rep.distinct_outcomes = 1 + rep.violations.iter().map(|v| v.class.clone()).collect::<std::collections::BTreeSet<_>>().len() as u64;
@@ -935,6 +1145,20 @@ pub fn run_c13(tier: Tier) -> i32 {
 }
 
 pub fn replay_c13(w: &serde_json::Value) -> Vec<String> {
+    if let Some(h) = w["history"].as_array() {
+        let base = crate::core::verif_root().join(".scratch/c13h");
+        let _ = std::fs::remove_dir_all(&base);
+        h_tree(&base);
+        let mut hist = vec![];
+        for step in h {
+            let (Some(d), Some(o)) = (HDOCS.iter().position(|x| Some(*x) == step[0].as_str()), HOPS.iter().find(|o| Some(hop_name(**o)) == step[1].as_str())) else { return vec!["bad witness".into()] };
+            hist.push((d, *o));
+        }
+        return match h_run(&base, &hist) {
+            Ok(bad) => bad.into_iter().map(|(d, want, got)| format!("history-text-diverged: {}: server {got:?}, client {want:?}", HDOCS[d])).collect(),
+            Err(e) => vec![format!("history-panic: {e}")],
+        };
+    }
     if let (Some(b), Some(a), Some(true)) = (w["before"].as_str(), act_from_json(&w["action"]), w["overlong"].as_bool()) {
         let mut rep = Report::new("C13", Tier::Quick);
         overlong_layer(&mut rep, Tier::Thorough);
